@@ -212,3 +212,13 @@ func VerifConnCounts(s *Server) (count int, inMap int) {
 	defer s.connMutex.Unlock()
 	return s.connCount, len(s.activeConns)
 }
+
+// ---- connection loop on a caller-supplied connection (C11, C19: peers with chosen addresses, several
+// identities on one connection) ----
+func VerifServeConn(s *Server, h *NFSProcedureHandler, conn net.Conn, recordMarking bool) {
+	if recordMarking {
+		s.handleConnectionWithRecordMarking(conn, h)
+	} else {
+		s.handleConnection(conn, h)
+	}
+}
